@@ -23,7 +23,15 @@ pub fn child(args: &[String]) {
     let survivor = arg_u64(args, "--survivor", 0) == 1;
     let k = arg_u64(args, "--crash-at", u64::MAX) as i64;
     let tx = OsIpcSender::connect(name).unwrap();
-    let boot = if survivor { vec![OsIpcChannel::Sender(tx.clone())] } else { vec![] };
+    let rev = arg_u64(args, "--rev", 0) == 1;
+    let mut boot = if survivor { vec![OsIpcChannel::Sender(tx.clone())] } else { vec![] };
+    // reverse mode: the doomed message carries a *receiver* whose sender is handed to the parent beforehand
+    let rev_pair = if rev { Some(platform::channel().unwrap()) } else { None };
+    let mut rev_rx = None;
+    if let Some((a, b)) = rev_pair {
+        boot.push(OsIpcChannel::Sender(a));
+        rev_rx = Some(b);
+    }
     tx.send(b"boot", boot, vec![]).unwrap();
     // one complete message before the crash: must be delivered intact whatever happens next
     tx.send(&payload(777), vec![], vec![]).unwrap();
@@ -61,7 +69,10 @@ pub fn child(args: &[String]) {
         use std::io::Write;
         std::io::stdout().flush().unwrap();
     }
-    let (atts, _keep) = mk_atts();
+    let (mut atts, _keep) = mk_atts();
+    if let Some(b) = rev_rx.take() {
+        atts.push(OsIpcChannel::Receiver(b));
+    }
     ip::CALLNO.store(0, Ordering::SeqCst);
     ip::CRASH_AT.store(k, Ordering::SeqCst);
     ip::COUNT_CALLS.store(true, Ordering::SeqCst);
@@ -324,6 +335,95 @@ fn run_one(sys: usize, len: usize, natt: usize, survivor: bool, obs: Observer, k
     (case, ncalls)
 }
 
+/// C09/C12: a receiver that travelled only inside a message whose sender died mid-send exists nowhere any more once the
+/// truncated message has been discarded — also while the owner of the carrying channel is blocked waiting for the next message
+fn stale_receiver_case(sys: usize, len: usize, k: usize, id: String) -> (Case, usize) {
+    let mut case = Case::new(id);
+    let (server, name) = OsIpcOneShotServer::new().unwrap();
+    let exe = std::env::current_exe().unwrap();
+    let mut ch = Command::new(exe)
+        .args(["crashchild", "--sys", &sys.to_string(), "--name", &name, "--len", &len.to_string(), "--natt", "0", "--survivor", "1", "--rev", "1",
+               "--crash-at", &k.to_string()])
+        .stdout(Stdio::piped())
+        .spawn()
+        .unwrap();
+    let (rx, _data, mut chans, _) = server.accept().unwrap();
+    let rev = chans.pop().map(|mut c| c.to_sender());
+    let surv = chans.pop().map(|mut c| c.to_sender());
+    let mut calls = String::new();
+    {
+        let out = ch.stdout.take().unwrap();
+        let mut br = BufReader::new(out);
+        let mut line = String::new();
+        while br.read_line(&mut line).unwrap_or(0) > 0 {
+            if let Some(c) = line.trim().strip_prefix("calls=") {
+                calls = c.to_string();
+            }
+            line.clear();
+        }
+    }
+    let _ = ch.wait();
+    let ncalls = calls.len();
+    let sent = calls.chars().take(k.min(ncalls)).filter(|c| *c == 'T').count();
+    let total_t = calls.chars().filter(|c| *c == 'T').count();
+    let partial = sent >= 1 && sent < total_t;
+    // the owner of the carrying channel blocks in recv(): it gets the 777-byte message, discards the truncated one and waits
+    let (tx_r, rx_r) = std::sync::mpsc::channel();
+    let h = std::thread::spawn(move || loop {
+        match rx.recv() {
+            Ok((d, ch, _)) => {
+                let fin = d == b"__survivor__";
+                let _ = tx_r.send((d.len(), ch.len()));
+                if fin {
+                    break;
+                }
+            },
+            Err(_) => break,
+        }
+    });
+    let _ = rx_r.recv_timeout(std::time::Duration::from_secs(5)); // the 777-byte message
+    if partial {
+        let rev = rev.as_ref().unwrap();
+        let t0 = std::time::Instant::now();
+        let mut failed = false;
+        let mut oks = 0;
+        while t0.elapsed() < std::time::Duration::from_secs(3) {
+            match crate::util::with_watchdog(5, {
+                let r = rev.clone();
+                move || r.send(b"probe", vec![], vec![]).is_ok()
+            }) {
+                Some(false) => {
+                    failed = true;
+                    break;
+                },
+                Some(true) => oks += 1,
+                None => {
+                    case.fail("send to a receiver that was attached to a discarded message blocked".into());
+                    break;
+                },
+            }
+            std::thread::sleep(std::time::Duration::from_millis(5));
+        }
+        if !failed && case.oracle.is_none() {
+            case.fail(format!(
+                "send kept reporting success ({} times over 3 s) although the receiving end was attached only to a message that was discarded (sender killed before call {} of {})",
+                oks, k, ncalls
+            ));
+        }
+    }
+    if let Some(s) = &surv {
+        let _ = s.send(b"__survivor__", vec![], vec![]);
+    }
+    let _ = rx_r.recv_timeout(std::time::Duration::from_secs(5));
+    let _ = h.join();
+    case.pair("noop".into(), "ok".into());
+    case.nontrivial = partial;
+    case.key = format!("stale:{}:{}", len, k);
+    case.tags.push("observer=blocked_recv_stale_receiver".into());
+    case.tags.push(format!("partial={}", partial as u8));
+    (case, ncalls)
+}
+
 pub fn run(args: &[String]) {
     let sys_arg = arg_u64(args, "--sys", 4608) as usize;
     ip::SPOOF_SNDBUF.store(sys_arg, Ordering::SeqCst);
@@ -340,6 +440,21 @@ pub fn run(args: &[String]) {
                 continue;
             }
         } else if !thorough && si >= 3 {
+            continue;
+        }
+        if len > max {
+            let mut k = 0;
+            loop {
+                n += 1;
+                let (c, ncalls) = stale_receiver_case(sys, len, k, format!("crash-stale-{}-{}", si, n));
+                c.emit();
+                if k >= ncalls {
+                    break;
+                }
+                k += 1;
+            }
+        }
+        if arg(args, "--only-stale").is_some() {
             continue;
         }
         for natt in [0usize, 1] {
